@@ -40,6 +40,24 @@ type RewardCache = Mutex<HashMap<(u64, u64), (Output, TxKernel)>>;
 static REWARDS: OnceLock<RewardCache> = OnceLock::new();
 static TXS: OnceLock<Mutex<HashMap<String, Transaction>>> = OnceLock::new();
 static GENESIS: OnceLock<Block> = OnceLock::new();
+// long trunks: the trunk blocks (their proof nonce is random) and a chain directory that has already
+// processed them are built once per process and copied for the builder and the node
+static TRUNK_BLOCKS: OnceLock<Mutex<HashMap<String, (Vec<Block>, String)>>> = OnceLock::new();
+const TEMPLATE_FROM: u64 = 30;
+
+fn copy_dir(from: &str, to: &str) {
+	let _ = std::fs::remove_dir_all(to);
+	std::fs::create_dir_all(to).unwrap();
+	for e in std::fs::read_dir(from).unwrap() {
+		let e = e.unwrap();
+		let dst = format!("{}/{}", to, e.file_name().to_string_lossy());
+		if e.file_type().unwrap().is_dir() {
+			copy_dir(&e.path().to_string_lossy(), &dst);
+		} else {
+			std::fs::copy(e.path(), &dst).unwrap();
+		}
+	}
+}
 
 fn reward_for(b: u64, value_units_over_base: u64) -> (Output, TxKernel) {
 	// value = 60 grin + fees; `value_units_over_base` = fees in units (incl. any over-claim)
@@ -233,7 +251,22 @@ fn flip(h: &Hash) -> Hash {
 /// all blocks in id (= topological) order; apply the corruption flags afterwards.
 pub fn build_world(beh: &Value, dir: &str) -> World {
 	let (tree, pool) = parse_tree(beh);
-	let builder = init_chain(&format!("{}/builder", dir));
+	let trunk = beh["trunk"].as_u64().unwrap_or(0);
+	let tkey = format!(
+		"{}|{:?}",
+		trunk,
+		(1..=trunk).map(|k| (tree[&k].ins.clone(), tree[&k].outs.clone(), tree[&k].diff)).collect::<Vec<_>>()
+	);
+	let mut cached: Option<Vec<Block>> = None;
+	if trunk >= TEMPLATE_FROM {
+		let cache = TRUNK_BLOCKS.get_or_init(|| Mutex::new(HashMap::new()));
+		if let Some((bs, tdir)) = cache.lock().unwrap().get(&tkey) {
+			copy_dir(tdir, &format!("{}/builder", dir));
+			copy_dir(tdir, &format!("{}/node", dir));
+			cached = Some(bs.clone());
+		}
+	}
+	let mut builder = init_chain(&format!("{}/builder", dir));
 	let g = the_genesis();
 	let mut blocks: HashMap<u64, Block> = HashMap::new();
 	let mut id_of = HashMap::new();
@@ -249,8 +282,16 @@ pub fn build_world(beh: &Value, dir: &str) -> World {
 				.unwrap(),
 		);
 	}
+	if let Some(bs) = &cached {
+		for (k, blk) in bs.iter().enumerate() {
+			let id = k as u64 + 1;
+			id_of.insert(blk.hash(), id);
+			commit_of.insert(id, reward_for(id, block_fee(&tree[&id])).0.commitment());
+			blocks.insert(id, blk.clone());
+		}
+	}
 	for (id, b) in &tree {
-		if *id == 0 {
+		if *id == 0 || (cached.is_some() && *id <= trunk) {
 			continue;
 		}
 		let prev = blocks[&b.parent].header.clone();
@@ -291,6 +332,20 @@ pub fn build_world(beh: &Value, dir: &str) -> World {
 		id_of.insert(blk.hash(), *id);
 		commit_of.insert(*id, cb_commit);
 		blocks.insert(*id, blk);
+		if cached.is_none() && trunk >= TEMPLATE_FROM && *id == trunk {
+			// the builder has processed exactly the trunk: keep a copy as this process's template
+			let tdir = format!("{}/../template_{}", dir, std::process::id());
+			drop(builder);
+			copy_dir(&format!("{}/builder", dir), &tdir);
+			copy_dir(&tdir, &format!("{}/node", dir));
+			let bs: Vec<Block> = (1..=trunk).map(|k| blocks[&k].clone()).collect();
+			TRUNK_BLOCKS
+				.get_or_init(|| Mutex::new(HashMap::new()))
+				.lock()
+				.unwrap()
+				.insert(tkey.clone(), (bs, tdir));
+			builder = init_chain(&format!("{}/builder", dir));
+		}
 	}
 	World {
 		tree,
@@ -379,6 +434,12 @@ fn compare(w: &World, chain: &Chain, proj: &Value, step: usize, mism: &mut Vec<V
 			bad("unspent_enum_count", json!(exp_unspent.len()), json!(outs.len()));
 		}
 	}
+	if let Some(t) = proj["tail"].as_i64() {
+		let obs = chain.tail().map(|x| x.height as i64).unwrap_or(-1);
+		if obs != t {
+			bad("tail", json!(t), json!(obs));
+		}
+	}
 	let exp_orph = ids(&proj["orph"]);
 	let exp_hdrs = ids(&proj["hdrs"]);
 	let exp_bodies = ids(&proj["bodies"]);
@@ -455,11 +516,15 @@ fn replay_one(beh: &Value, dir: &str, deep_every: bool, twin: bool) -> Value {
 	let node_dir = format!("{}/node", dir);
 	let mut chain = Some(init_chain(&node_dir));
 	let trunk = beh["trunk"].as_u64().unwrap_or(0);
-	for k in 1..=trunk {
-		let _ = chain
-			.as_ref()
-			.unwrap()
-			.process_block(w.blocks[&k].clone(), Options::SKIP_POW);
+	if trunk < TEMPLATE_FROM {
+		for k in 1..=trunk {
+			let _ = chain
+				.as_ref()
+				.unwrap()
+				.process_block(w.blocks[&k].clone(), Options::SKIP_POW);
+		}
+	} else if chain.as_ref().unwrap().head().unwrap().last_block_h != w.blocks[&trunk].hash() {
+		panic!("templated node is not at the trunk head");
 	}
 	let mut mism: Vec<Value> = vec![];
 	let steps = beh["steps"].as_array().unwrap();
@@ -501,6 +566,14 @@ fn replay_one(beh: &Value, dir: &str, deep_every: bool, twin: bool) -> Value {
 				}));
 				match r {
 					Ok(Ok(_)) => "ok".to_string(),
+					Ok(Err(_)) => "reject".to_string(),
+					Err(_) => "panic".to_string(),
+				}
+			}
+			"Compact" => {
+				let c = chain.as_ref().unwrap();
+				match std::panic::catch_unwind(std::panic::AssertUnwindSafe(|| c.compact())) {
+					Ok(Ok(())) => "ok".to_string(),
 					Ok(Err(_)) => "reject".to_string(),
 					Err(_) => "panic".to_string(),
 				}
